@@ -113,6 +113,7 @@ type lifeClient struct {
 }
 
 type lifeRun struct {
+	stormSeq int
 	srv      *redis.Server
 	double   *double
 	plain    int
@@ -320,6 +321,60 @@ func (lr *lifeRun) act(a string) string {
 		return errTok(lr.srv.Stop())
 	case "restart":
 		return errTok(lr.srv.Restart())
+	case "stopstorm": // Stop while clients keep connecting: connect, one PING, stay connected
+		halt := make(chan struct{})
+		var wg sync.WaitGroup
+		var mu sync.Mutex
+		var conns []net.Conn
+		addr := "127.0.0.1:" + strconv.Itoa(lr.plain)
+		for i := 0; i < 4; i++ {
+			wg.Add(1)
+			go func() {
+				defer wg.Done()
+				buf := make([]byte, 64)
+				for {
+					select {
+					case <-halt:
+						return
+					default:
+					}
+					c, err := net.DialTimeout("tcp", addr, 200*time.Millisecond)
+					if err != nil {
+						time.Sleep(100 * time.Microsecond)
+						continue
+					}
+					c.SetDeadline(time.Now().Add(300 * time.Millisecond))
+					c.Write(reqS("PING"))
+					c.Read(buf)
+					mu.Lock()
+					conns = append(conns, c)
+					mu.Unlock()
+				}
+			}()
+		}
+		time.Sleep(time.Duration(200+lr.stormSeq*137%1800) * time.Microsecond)
+		lr.stormSeq++
+		done := make(chan error, 1)
+		go func() { done <- lr.srv.Stop() }()
+		res := ""
+		select {
+		case err := <-done:
+			res = errTok(err)
+		case <-time.After(3 * time.Second):
+			res = "hang"
+		}
+		close(halt)
+		wg.Wait()
+		for _, c := range conns {
+			c.Close()
+		}
+		if res == "hang" {
+			select {
+			case <-done:
+			case <-time.After(3 * time.Second):
+			}
+		}
+		return res
 	case "ping": // ping:<p|t>[:cert]
 		cert := "good"
 		if len(f) > 2 {
@@ -358,9 +413,27 @@ func (lr *lifeRun) act(a string) string {
 		return "ok"
 	case "rst":
 		if cl := lr.clients[f[1]]; cl != nil {
-			if tc, ok := cl.conn.(*net.TCPConn); ok {
+			// a TCP reset, also for TLS clients: no close_notify, the socket is aborted underneath the TLS layer
+			raw := cl.conn
+			if tc, ok := raw.(*tls.Conn); ok {
+				raw = tc.NetConn()
+			}
+			if tc, ok := raw.(*net.TCPConn); ok {
 				tc.SetLinger(0)
 			}
+			raw.Close()
+			delete(lr.clients, f[1])
+		}
+		return "ok"
+	case "unread": // the client pipelines requests and goes away without reading the replies
+		if cl := lr.clients[f[1]]; cl != nil {
+			var b []byte
+			for i := 0; i < 200; i++ {
+				b = append(b, reqS("PING")...)
+			}
+			cl.conn.SetDeadline(time.Now().Add(2 * time.Second))
+			cl.conn.Write(b)
+			time.Sleep(10 * time.Millisecond)
 			cl.conn.Close()
 			delete(lr.clients, f[1])
 		}
